@@ -53,7 +53,7 @@ type Proxy struct {
 	tDial   string
 	mu      sync.Mutex
 	conns   []*ProxyConn
-	Reseg   int32 // 0: forward chunks as read; 1: byte-wise; 2: random pieces with yields
+	Reseg   int32 // 0: forward chunks as read; 1: byte-wise; 2: random pieces with yields; 3: coalesce (hold until 3 ms of silence, then one write)
 	// PauseNextMS: the next service->client chunk is forwarded in two halves with this pause in between (one shot)
 	PauseNextMS int32
 	segSeed     int64
@@ -142,6 +142,27 @@ func (p *Proxy) serve(c net.Conn, pc *ProxyConn, seed int64) {
 				*rec = append(*rec, buf[:n]...)
 				pc.mu.Unlock()
 				b := buf[:n]
+				if mode == 3 && rec == &pc.s2c {
+					// whatever else the service sends within the next 3 ms travels in the same segment
+					for n < len(buf) {
+						src.SetReadDeadline(time.Now().Add(3 * time.Millisecond))
+						m, rerr := src.Read(buf[n:])
+						if m > 0 {
+							pc.mu.Lock()
+							*rec = append(*rec, buf[n:n+m]...)
+							pc.mu.Unlock()
+							n += m
+						}
+						if rerr != nil {
+							if ne, ok := rerr.(net.Error); !ok || !ne.Timeout() {
+								err = rerr
+							}
+							break
+						}
+					}
+					src.SetReadDeadline(time.Time{})
+					b = buf[:n]
+				}
 				if rec == &pc.s2c && n >= 2 {
 					if ms := atomic.SwapInt32(&p.PauseNextMS, 0); ms > 0 {
 						dst.Write(b[:n/2])
